@@ -1,16 +1,15 @@
 #!/usr/bin/env python3
-"""setup.py — MANIFEST.setup_cmd: build the Coq development (full .vo build), extract and compile the
-OCaml model driver. Offline, from files on disk only."""
-import os, sys
+"""setup.py — MANIFEST.setup_cmd: build the Coq development (full .vo build of every theories/*.v), extract and
+compile every OCaml model driver (coq/extract/Extract*.v).  Offline, from files on disk only."""
+import glob, os, re, sys
 sys.path.insert(0, os.path.dirname(os.path.abspath(__file__)))
 import lib
-rc, so, se = lib.sh("coq_makefile -f _CoqProject -o Makefile", cwd=lib.COQ, timeout=120)
-if rc != 0:
-    print(so + se); sys.exit(1)
 ok, log = lib.coq_make(timeout=7200)
 if not ok:
-    print(log); sys.exit(1)
-ok, log = lib.ensure_model()
-if not ok:
-    print(log); sys.exit(1)
+    print(log); print("setup: coq build FAILED"); sys.exit(1)
+for f in sorted(glob.glob(os.path.join(lib.COQ, "extract", "Extract*.v"))):
+    m = re.match(r"Extract(?:_(\w+))?\.v$", os.path.basename(f))
+    ok, log = lib.ensure_model(m.group(1))
+    if not ok:
+        print(log); print("setup: model build FAILED for", f); sys.exit(1)
 print("setup ok")
